@@ -53,7 +53,36 @@ def make_root(case):
     return build(tuple_tree(case["tree"]))
 
 
-def observe(case):
+FORMATS = [("indent", dict(indentation="  ", width=0)), ("w20", dict(indentation="  ", width=20)),
+           ("w40", dict(indentation="  ", width=40)), ("w80", dict(indentation="  ", width=80))]
+
+
+def formatted_outputs(root, m, rng):
+    """C13 speaks about every serialization: the root and up to two sub-trees (nodes that have a parent), each with
+    indentation only and with a text width.  Returns [(label, pseudo-observation)] for the declaration clauses; the
+    prefix table does not depend on the format options, so its correspondence is checked on the plain run only."""
+    out = []
+    tags = bfs_tags(root)
+    nodes = [("root", root)] + [("subtree", n) for n in rng.sample(tags[1:], min(2, len(tags) - 1))]
+    for which, node in nodes:
+        try:
+            t = extract(node)
+        except Exception:  # noqa: BLE001
+            continue
+        for label, kw in FORMATS + ([("plain", None)] if which == "subtree" else []):
+            try:
+                if kw is None:
+                    text = node.serialize(namespaces=m)
+                else:
+                    text = node.serialize(format_options=impl.FormatOptions(**kw), namespaces=m)
+            except Exception as e:  # noqa: BLE001   (formatting defects belong to C03/C18/C19; no serialization, no claim)
+                out.append((which + "/" + label, {"exc": type(e).__name__}))
+                continue
+            out.append((which + "/" + label, {"ser": ("ok", text), "m": m, "t": t}))
+    return out
+
+
+def observe(case, rng=None):
     """run the implementation on one (document, mapping) pair"""
     m = mapping_of(case["mapping"])
     with no_gc():
@@ -71,7 +100,10 @@ def observe(case):
         bfs = [(n.namespace or "", sorted(a.namespace or "" for a in n.attributes.values())) for n in bfs_tags(root)]
         pref = real_prefixes(root, m)
         ser = real_serialize(root, m)
-    return {"t": t, "ord": ordl, "bfs": bfs, "pref": pref, "ser": ser, "m": m}
+        formatted = []
+        if rng is not None and ser[0] == "ok" and rng.random() < 0.5:
+            formatted = formatted_outputs(root, m, rng)
+    return {"t": t, "ord": ordl, "bfs": bfs, "pref": pref, "ser": ser, "m": m, "formatted": formatted}
 
 
 def enc_bfs(bfs):
@@ -156,7 +188,7 @@ def lxml_clauses(obs):
 def check_cases(ctx, cases):
     observed = []
     for c in cases:
-        o = observe(c)
+        o = observe(c, ctx.rng)
         observed.append(o)
     terms = []
     for c, o in zip(cases, observed):
@@ -244,6 +276,15 @@ def check_cases(ctx, cases):
             bad.append("the clauses of C13 (c13_holds_b, evaluated in Coq) fail on the implementation's prefix table")
         for b in bad[:1]:
             ctx.fail(b, dict(case, output=sv, prefixes=pv), classify)
+        # ---- the declaration clauses on formatted serializations and on sub-trees -------------------------
+        for label, fo in o.get("formatted", []):
+            if "exc" in fo:
+                ctx.count(1, "formatted/raised-" + fo["exc"])
+                continue
+            ctx.count(1, "formatted/" + label)
+            fbad = direct_clauses(fo) + lxml_clauses(fo)
+            for b in fbad[:1]:
+                ctx.fail("%s serialization: %s" % (label, b), dict(case, output=fo["ser"][1], which=label), classify)
 
 
 def replay_open(f):
@@ -300,7 +341,7 @@ def run(ctx, args):
              "(prefixes p, q, svg, ns0, ns1; xmlns='' below a default; xml: attributes) or built through the API with any "
              "namespace on any element/attribute, depth <= 3; mappings: None, {}, default as None or '', prefixes incl. "
              "ns0/ns1/ns2/ns00 (colliding with generated ones); 8% of the API trees carry an attribute named xmlns, common prefixes remapped, refused ones (xml, duplicates). "
-             "Non-trivial = at least two namespaces in the tree or a non-empty accepted mapping; distinct by (tree, mapping).",
+             "For half of the pairs the declaration clauses are also checked on formatted serializations (indentation only, width 20/40/80) of the root and of up to two sub-trees (nodes with a parent), and on the plain serialization of those sub-trees. Non-trivial = at least two namespaces in the tree or a non-empty accepted mapping; distinct by (tree, mapping).",
         replay_open=replay_open)
 
 
